@@ -814,7 +814,7 @@ func oracle(c *hc.Ctx, d *Doc, svg string, p Parsed) {
 			fail(c, "miterlimit"+firstFeature(d, "miterlimit"), fmt.Sprintf("<%s> #%d: miter limit %v, specified %v", s.N.Tag, i, lim, s.St.Miter), rp("limit", lim))
 		}
 		// dashes as on/off function of the arc length (user units)
-		// (Path.checkDash was repaired upstream in 0981ba9: every pattern and offset is judged)
+		// (Path.checkDash was repaired upstream in 555d813: every pattern and offset is judged)
 		if len(s.St.Dash) > 0 || len(l.Style.Dashes) > 0 || !l.Style.HasStroke() {
 			c.Count("dashed")
 			length := hc.PolylineLen(s.Subs[0].Pts)
